@@ -166,7 +166,12 @@ impl<'a, 'b> G<'a, 'b> {
             2 | 3 | 4 => {
                 let v = self.new_or_old_var();
                 let f = FNS[self.c.below(FNS.len())];
-                let t = match self.c.below(8) {
+                let t = match self.c.below(12) {
+                    // the error sits two or three function levels down, or in a filter inside a function
+                    8 => format!("fn {}(p) {{ fn(q) {{ p + q + zz9 }} }}", f),
+                    9 => format!("let {} = fn(a) {{ fn(b) {{ fn(c) {{ a + zz9 }} }} }};", v),
+                    10 => format!("fn {}(p) {{ let k = p; @ zz9 > k }}", f),
+                    11 => format!("fn {}(p) {{ {{ let k = 1; fn(q) {{ {{ zz9 }} }} }} }}", f),
                     0 => "puts(zz9);".to_string(),
                     1 => format!("let {} = zz9 + 1;", v),
                     2 => format!("let {} = 55; puts(zz9);", v),
@@ -206,10 +211,20 @@ impl<'a, 'b> G<'a, 'b> {
                 }
                 st.push(S::Expr(assign(id(v), bin("+", id(v), E::Int(1)))));
                 st.push(S::Expr(call("puts", vec![id(v)])));
-                let bad = match self.c.below(3) {
+                let bad = match self.c.below(5) {
                     0 => bin("/", E::Int(1), E::Int(0)),
                     1 => bin("%", id(v), E::Int(0)),
-                    _ => idx(E::Arr(vec![E::Int(1)]), E::Int(5)),
+                    2 => idx(E::Arr(vec![E::Int(1)]), E::Int(5)),
+                    // the failure happens inside a called function (one or two calls deep)
+                    3 => {
+                        st.push(S::FnDef("boom".into(), vec!["n".into()], vec![S::Let("loc".into(), E::Int(3)), S::Expr(bin("/", E::Int(10), id("n")))]));
+                        call("boom", vec![E::Int(0)])
+                    }
+                    _ => {
+                        st.push(S::FnDef("boom".into(), vec!["n".into()], vec![S::Expr(idx(E::Arr(vec![E::Int(1), E::Int(2)]), id("n")))]));
+                        st.push(S::FnDef("outer".into(), vec!["n".into()], vec![S::Let("keep".into(), id("n")), S::Expr(bin("+", call("boom", vec![bin("+", id("n"), E::Int(7))]), id("keep")))]));
+                        call("outer", vec![E::Int(1)])
+                    }
                 };
                 st.push(S::Expr(call("puts", vec![bad])));
                 st.push(S::Expr(assign(id(v), bin("+", id(v), E::Int(100)))));
